@@ -47,7 +47,7 @@ fn has_flag(args: &[String], name: &str) -> bool {
 
 fn process_setup() {
     set_hash_stream(MAIN_HASH_SEED);
-    std::panic::set_hook(Box::new(|_| {}));
+    grex_sim::model::install_quiet_panic_hook();
     grex::verif::set_point_hook(Some(point_hook));
 }
 
@@ -101,7 +101,7 @@ fn seam_selftest() -> Result<(), String> {
 fn mode_golden_one(args: &[String]) -> i32 {
     let hs: u64 = arg_value(args, "--hash-seed").and_then(|s| s.parse().ok()).unwrap_or(1);
     set_hash_stream(hs);
-    std::panic::set_hook(Box::new(|_| {}));
+    grex_sim::model::install_quiet_panic_hook();
     let mut s = String::new();
     std::io::stdin().read_to_string(&mut s).ok();
     let key = match Key::decode(s.trim()) {
@@ -255,7 +255,8 @@ fn run_episode(
     }
     // fresh-process audit of every key (replay mode): the in-process golden itself may be contaminated
     if violation.is_none() && harness_error.is_none() && check_fresh_all {
-        let keys: Vec<(Key, Outcome)> = oracle.keys().map(|(k, o)| (k.clone(), o.clone())).collect();
+        let mut keys: Vec<(Key, Outcome)> = oracle.keys().map(|(k, o)| (k.clone(), o.clone())).collect();
+        keys.extend(observed_all.iter().map(|(k, o)| (k.clone(), o.clone())));
         for (k, o) in keys {
             match fresh_golden(&k, 1) {
                 Ok(f) => {
@@ -848,6 +849,8 @@ fn mode_run(args: &[String]) -> i32 {
     let mut samples: Vec<Value> = vec![];
     let mut key_table: BTreeMap<String, (Value, u64)> = BTreeMap::new();
     let mut cross_process_keys = 0u64;
+    let mut cross_process_mismatches = 0u64;
+    let mut forced_audit: Vec<(String, Value, u64)> = vec![];
     let mut violations: Vec<(u64, Value, Value)> = vec![]; // (episode, violation, executed runs)
     for (i, v) in &results {
         for k in [
@@ -888,15 +891,13 @@ fn mode_run(args: &[String]) -> i32 {
                     None => {
                         key_table.insert(k, (kv[1].clone(), *i));
                     }
-                    Some((o, first_ep)) => {
+                    Some((o, _first_ep)) => {
                         cross_process_keys += 1;
-                        if *o != kv[1] && v["violation"].is_null() {
-                            // the same key built in two processes with different results
-                            violations.push((
-                                *i,
-                                json!({"class": "cross_process_mismatch", "key": k, "observed": kv[1], "expected": o, "other_episode": first_ep}),
-                                Value::Null,
-                            ));
+                        if *o != kv[1] {
+                            // the same key built in two processes with different results: both go to the
+                            // fresh-process audit, which decides which process deviated
+                            cross_process_mismatches += 1;
+                            forced_audit.push((k.clone(), kv[1].clone(), *i));
                         }
                     }
                 }
@@ -905,11 +906,13 @@ fn mode_run(args: &[String]) -> i32 {
     }
 
     // ---- fresh-process audit of keys ---------------------------------------------
-    let audit_keys: Vec<(String, Value, u64)> = key_table
+    let forced_keys: BTreeSet<String> = forced_audit.iter().map(|(k, _, _)| k.clone()).collect();
+    let mut audit_keys: Vec<(String, Value, u64)> = key_table
         .iter()
-        .filter(|(k, _)| fnv1a(k.as_bytes()) % 100 < audit_pct)
+        .filter(|(k, _)| fnv1a(k.as_bytes()) % 100 < audit_pct || forced_keys.contains(*k))
         .map(|(k, (o, ep))| (k.clone(), o.clone(), *ep))
         .collect();
+    audit_keys.extend(forced_audit.iter().cloned());
     let audited = Arc::new(AtomicUsize::new(0));
     let audit_viol: Arc<Mutex<Vec<(u64, Value)>>> = Arc::new(Mutex::new(vec![]));
     let audit_err: Arc<Mutex<Vec<String>>> = Arc::new(Mutex::new(vec![]));
@@ -1064,6 +1067,7 @@ fn mode_run(args: &[String]) -> i32 {
             "getrandom_calls_served": agg.get("getrandom_calls"),
             "distinct_keys": key_table.len(),
             "keys_seen_in_more_than_one_process": cross_process_keys,
+            "cross_process_mismatches": cross_process_mismatches,
             "keys_audited_in_fresh_process": audited.load(Ordering::SeqCst),
             "determinism_double_runs": doubles.len(),
             "history_probes": {
